@@ -869,9 +869,11 @@ def OP_CALL(tape: Tape, stack: Stack, cache: dict) -> None:
 
     subtape.pointer = 0
     subtape.flags = tape.flags
-    run_tape(subtape, stack, cache, additional_flags=tape.flags)
-    subtape.pointer = init_pointer
-    subtape.returned = False
+    try:
+        run_tape(subtape, stack, cache, additional_flags=tape.flags)
+    finally:
+        subtape.pointer = init_pointer
+        subtape.returned = False
 
 def OP_IF(tape: Tape, stack: Stack, cache: dict) -> None:
     """Read the next 2 bytes from the tape, interpreting as an unsigned
